@@ -144,7 +144,8 @@ def build_measures():
     add('distance_wei', 'wd', lambda b, A, ci: b.distance_wei(A), (('D', MM, EX), ('B', 'x', EX)))
     add('distance_wei_floyd', 'wd', lambda b, A, ci: b.distance_wei_floyd(A), (('SPL', MM, EX), ('hops', 'x', EX), ('Pmat', 'xp', EX)))
     add('distance_wei_floyd', 'wd', lambda b, A, ci: b.distance_wei_floyd(A, transform='inv'),
-        (('SPL', MM, AP), ('hops', 'x', EX), ('Pmat', 'xp', EX)), variant='inv')
+        (('SPL', MM, AP), ('hops', 'x', EX), ('Pmat', 'xp', EX)), variant='inv',
+        cond_fn=lambda A: {'inv_of_negative_zero': bool(np.signbit(A[A == 0]).any())})
     add('distance_wei_floyd', 'wd', lambda b, A, ci: b.distance_wei_floyd(A / 16.0, transform='log'),
         (('SPL', MM, AP), ('hops', 'x', EX), ('Pmat', 'xp', EX)), variant='log')
     add('breadthdist', 'wd', lambda b, A, ci: b.breadthdist(A), (('R', MM, EX), ('D', MM, EX)))
@@ -967,7 +968,7 @@ def size_family(rs, tier):
 
 def special_family(rs, tier):
     """special values where the routines' domains allow them: -0.0 in place of absent connections (every measure), tiny weights
-    1e-300 and weights in (0, 1] whose maximum is exactly 1.0 (weighted measures), self-loops (BCT's convention is an empty
+    2^-996 (about 1.5e-300) and weights in (0, 1] whose maximum is exactly 1.0 (weighted measures), self-loops (BCT's convention is an empty
     diagonal, but a renumbering maps the diagonal to itself, so every routine must still be equivariant)"""
     lst = []
     for c in range(8 if tier == 'quick' else 48):
@@ -984,7 +985,7 @@ def special_family(rs, tier):
             T = (A != 0) & (rs.rand(n, n) < .4)
             if cls[1] == 'u':
                 T = np.triu(T, 1); T = T | T.T
-            A = np.where(T, 1e-300, A)
+            A = np.where(T, 2.0 ** -996, A)       # about 1.5e-300, dyadic: sums of such weights stay exact
         elif kind == 2:                        # weights k/4 with maximum exactly 1.0
             A = A / 4.0
         else:                                  # self-loops
